@@ -167,6 +167,9 @@ func runC19(c *core.Ctx) {
 			cv.envVal = words[r.Intn(len(words))]
 			if cv.hasClear {
 				cv.envVal = words[r.Intn(len(words))] + ", " + words[r.Intn(len(words))] + " ," + words[r.Intn(len(words))]
+				if r.Intn(4) == 0 {
+					cv.envVal += []string{",", ",,e9", ", "}[r.Intn(3)] // empty list elements are elements
+				}
 			} else if r.Intn(3) == 0 {
 				// a single-valued type gets the variable's content byte for byte, blanks included
 				cv.envVal = []string{" e1 ", "two words", "\ttab", " ", "e1 "}[r.Intn(5)]
@@ -296,12 +299,24 @@ func runC19(c *core.Ctx) {
 			}
 		}
 	}
-	if app.Spec == specs[2] {
+	if app.Spec == specs[2] || (app.Spec == specs[0] && r.Intn(3) == 0) {
+		// (for the first spec too: an option matcher steps over the occurrences of the other option)
 		block(w)
 		block(v)
 	} else {
 		block(v)
 		block(w)
+	}
+	// a lone dash is never the detached value of an option: the line is a usage error and the type never sees "-"
+	dashValue := false
+	if r.Intn(25) == 0 {
+		for _, cv := range []*cvVar{w, v} {
+			if !cv.isFlag {
+				argv = append(argv, []string{"-" + cv.name, "--" + cv.name + cv.name}[r.Intn(2)], "-")
+				dashValue = true
+				break
+			}
+		}
 	}
 	na := r.Intn(3)
 	for i := 0; i < na; i++ {
@@ -326,6 +341,22 @@ func runC19(c *core.Ctx) {
 	}
 	if len(argv) > 0 || v.envState+w.envState+x.envState > 0 {
 		c.Nontrivial(fmt.Sprintf("%+v", d))
+	}
+	if dashValue {
+		if ran || err == nil {
+			c.Violation(fmt.Sprintf("a lone dash was taken as the detached value of an option: ran=%v err=%v", ran, err), nil, nil)
+			return
+		}
+		for _, cv := range []*cvVar{v, w} {
+			for _, l := range cv.log {
+				if l == "Set(-)" {
+					c.Violation(fmt.Sprintf("%s received the token \"-\" that was not bound to it: %v", cv.name, cv.log), nil, nil)
+					return
+				}
+			}
+		}
+		c.Inc("dash_as_detached_value_rejected")
+		return
 	}
 	// expected logs
 	anyFail := false
